@@ -399,6 +399,7 @@ pub fn run(ctx: &Ctx) -> Report {
       ("create-directory", vec!["torrent", "create", "--input", "tree", "--output", "new.torrent"]),
       ("create-file", vec!["torrent", "create", "--input", "data", "--output", "new.torrent"]),
       ("create-stdout", vec!["torrent", "create", "--input", "tree", "--output", "-"]),
+      ("create-from-stdin", vec!["torrent", "create", "--input", "-", "--name", "piped", "--output", "piped.torrent"]),
       ("verify", vec!["torrent", "verify", "--input", "t.torrent", "--content", "data"]),
       ("show", vec!["torrent", "show", "--input", "t.torrent"]),
       ("link", vec!["torrent", "link", "--input", "t.torrent"]),
@@ -415,7 +416,9 @@ pub fn run(ctx: &Ctx) -> Report {
         }
         let mut args: Vec<&str> = if quiet { vec!["--quiet"] } else { vec![] };
         args.extend(sub.iter().copied());
-        let Some(o) = crate::run::pty_run_fds(80, &sb.root, &ctx.imdl, &args, "2", &sb.path("stdout.bin")) else {
+        sb.write("piped-input", &vec![0x5a; 3_000_000]);
+        let stdin = if name == "create-from-stdin" { sb.path("piped-input") } else { std::path::PathBuf::from("/dev/null") };
+        let Some(o) = crate::run::pty_run_stdin(80, &sb.root, &ctx.imdl, &args, "2", &sb.path("stdout.bin"), &stdin) else {
           report.hit("skipped:no-pty-helper");
           break 'outer;
         };
